@@ -52,11 +52,24 @@ def run_checks(props, tier="quick"):
         pass
     return res
 
-def confirm(pid, which, checks=None):
+def confirm(pid, which, checks=None, stored=False):
     src = "%s/%s/out" % (os.environ.get("SEED_SRC", "/tmp/seed"), pid)
     # round 2 deliverables are also called a/b: SEED_RENAME=a:c,b:d stores them as <ID>-c / <ID>-d
     ren = dict(x.split(":") for x in os.environ.get("SEED_RENAME", "").split(",") if ":" in x)
     name = "%s-%s" % (pid, ren.get(which, which))
+    if stored:
+        # re-confirm a change from its stored copy (/verif/seeded/<ID>-<x>/patch.diff, demo.rs, notes.md)
+        name = "%s-%s" % (pid, which)
+        stage = "/tmp/vseeded_stage_%s" % name
+        shutil.rmtree(stage, ignore_errors=True); os.makedirs(stage)
+        d0 = os.path.join(VERIF, "seeded", name)
+        shutil.copy(os.path.join(d0, "patch.diff"), os.path.join(stage, "%s.diff" % which))
+        shutil.copy(os.path.join(d0, "demo.rs"), os.path.join(stage, "%s_demo.rs" % which))
+        if os.path.exists(os.path.join(d0, "notes.md")):
+            shutil.copy(os.path.join(d0, "notes.md"), os.path.join(stage, "%s.md" % which))
+        src = stage
+        old_meta = json.load(open(os.path.join(d0, "meta.json")))
+        ren = {"x": "x"} if old_meta.get("round") == 2 else {}
     head = ensure()
     meta = {"name": name, "breaks_property": pid, "round": 2 if ren else 1, "source": "independent sub-agent given only the property text and a scratch worktree" + (" (second round: also told which changes had been tried before)" if ren else ""), "repo_head": head, "confirmation": {}}
     shutil.copy(os.path.join(src, "%s_demo.rs" % which), os.path.join(SCRATCH, "tests", "seed_demo.rs"))
@@ -127,6 +140,10 @@ def rerun(names, tier="quick", only_target=False):
 if __name__ == "__main__":
     if sys.argv[1] == "confirm":
         confirm(sys.argv[2], sys.argv[3], sys.argv[4].split(",") if len(sys.argv) > 4 else None)
+    elif sys.argv[1] == "reconfirm":
+        # reconfirm <ID>-<x> : from the stored copy
+        pid, which = sys.argv[2].rsplit("-", 1)
+        confirm(pid, which, None, stored=True)
     elif sys.argv[1] == "rerun":
         args = sys.argv[2:]
         only = "--target" in args
